@@ -53,51 +53,6 @@ func pipeline(proto int, wire []byte) (h gocql.VerifC04Header, out c04lib.Outcom
 	return
 }
 
-// mapKeyFinding: the trigger of known finding rowdata-map-key -- some column type contains a map whose
-// key type is blob, a collection, a tuple or a UDT (Go types that cannot be map keys)
-func mapKeyFinding(cols []c04lib.SCol) string {
-	var bad func(t *c04lib.SType, top bool) bool
-	uncomparable := func(t *c04lib.SType) bool {
-		return t.Kind == c04lib.KList || t.Kind == c04lib.KSet || t.Kind == c04lib.KMap || t.Kind == c04lib.KTuple || t.Kind == c04lib.KUDT ||
-			(t.Kind == c04lib.KNative && t.ID == 3) || (t.Kind == c04lib.KCustom && t.Class == c04lib.MarshalPrefix+"BytesType") ||
-			(t.Kind == c04lib.KCustom && t.Class == "BytesType")
-	}
-	bad = func(t *c04lib.SType, top bool) bool {
-		switch t.Kind {
-		case c04lib.KMap:
-			return uncomparable(t.Elems[0]) || bad(t.Elems[0], false) || bad(t.Elems[1], false)
-		case c04lib.KList, c04lib.KSet:
-			return bad(t.Elems[0], false)
-		case c04lib.KTuple:
-			if top { // RowData creates one value per component of a top-level tuple column
-				for _, e := range t.Elems {
-					if bad(e, false) {
-						return true
-					}
-				}
-			}
-		}
-		return false
-	}
-	for _, c := range cols {
-		if bad(c.Type, true) {
-			return "rowdata-map-key"
-		}
-	}
-	return ""
-}
-
-// scannerFinding: the trigger of known finding scanner-tuple-column-offset -- a tuple column whose number of
-// components is not 1 is followed by another column (iterScanner.Scan indexes the row's cells by destination)
-func scannerFinding(cols []c04lib.SCol) string {
-	for i, c := range cols {
-		if i < len(cols)-1 && c.Type.Kind == c04lib.KTuple && len(c.Type.Elems) != 1 {
-			return "scanner-tuple-column-offset"
-		}
-	}
-	return ""
-}
-
 // stypeOf: the logical type a parsed TypeInfo stands for (native and collection types)
 func stypeOf(t gocql.TypeInfo) *c04lib.SType {
 	switch x := t.(type) {
@@ -444,12 +399,7 @@ func main() {
 			it := out.Framer.Iter(out.Frame)
 			names, npanic := c04lib.RowDataOutcome(it)
 			if npanic != nil {
-				// a crash, not a wrong value: property C05 reports it (known finding rowdata-map-key); here the
-				// correspondence case below only checks that the model crashes at the same place
-				o.Count("rowdata-panic(C05)")
-				if mapKeyFinding(res.Meta.Cols) == "" {
-					o.Violate(-1, "rowdata-panic-unexplained", "", fmt.Sprintf("Iter.RowData panicked: %s in %s", npanic.Value, npanic.Func), hlib.ZList(wire))
-				}
+				o.Violate(-1, "rowdata-panic", "", fmt.Sprintf("Iter.RowData panicked on a well-formed rows frame: %s in %s", npanic.Value, npanic.Func), hlib.ZList(wire))
 			}
 			scans := c04lib.Scans(it, nd, k)
 			sidx := o.Case("scan:"+label, len(res.Rows) > 0, fmt.Sprintf("CScan %d %d %d %d %s %d %s %s", v, h.Version, h.Flags, h.Op,
@@ -474,7 +424,6 @@ func main() {
 				ss := c04lib.ScannerSteps(o2.Framer.Iter(o2.Frame), nd, k)
 				scidx := o.Case("scanner:"+label, len(res.Rows) > 0, fmt.Sprintf("CScanner %d %d %d %d %s %d %s %s", v, h.Version, h.Flags, h.Op,
 					hlib.ZList(body), nd, hlib.Nat(k), c04lib.CoqScans(ss)))
-				fid := scannerFinding(res.Meta.Cols)
 				for i, row := range res.Rows {
 					want := c04lib.ExpectRow(&res.Meta, row)
 					if i >= len(ss) || ss[i].Coq() != want {
@@ -482,7 +431,7 @@ func main() {
 						if i < len(ss) {
 							got = ss[i].Coq()
 						}
-						o.Violate(scidx, "scanner-cells", fid, fmt.Sprintf("row %d: Scanner delivered %s; the frame says %s", i, got, want), hlib.ZList(wire))
+						o.Violate(scidx, "scanner-cells", "", fmt.Sprintf("row %d: Scanner delivered %s; the frame says %s", i, got, want), hlib.ZList(wire))
 						break
 					}
 				}
